@@ -4,6 +4,7 @@ usage: tools_refac_prompt.py <root dir> <area>   -> prints the prompt; the agent
 The avoid-list is read from the notes.json files of the corpora already stored under /verif/benign*."""
 import glob, json, sys
 root, area = sys.argv[1], sys.argv[2]
+KINDS_FILE = sys.argv[3] if len(sys.argv) > 3 else None
 W = "%s/%s" % (root, area)
 FILES = {
  "gen": "ffuzzy/src/internals/generate.rs, ffuzzy/src/internals/generate/hashes/*.rs, ffuzzy/src/internals/generate_easy.rs, ffuzzy/src/internals/generate_easy_std.rs",
@@ -13,16 +14,7 @@ FILES = {
  "cmp": "ffuzzy/src/internals/compare.rs and ffuzzy/src/internals/compare_easy.rs",
  "pos": "ffuzzy/src/internals/compare/position_array.rs, ffuzzy/src/internals/utils.rs",
 }
-prev = []
-for n in sorted(glob.glob("/verif/benign*/*/notes.json")):
-    a = n.split("/")[-2]
-    for o in json.load(open(n)):
-        prev.append("- %s: %s (%s)" % (a, str(o.get("kind"))[:80], str(o.get("where"))[:90]))
-print(f"""You are working in a scratch git worktree of the Rust library a4lg/ffuzzy (a pure-Rust ssdeep fuzzy hashing library; crate `ffuzzy`, lib name `ssdeep`) at {W}. Work ONLY inside {W}; never read or touch /repo, /verif or other /tmp directories. There is no network: always run cargo with `--offline` and the environment `CARGO_NET_OFFLINE=true CARGO_TARGET_DIR={W}/target`.
-
-YOUR TASK: produce EIGHT independent BEHAVIOUR-PRESERVING refactorings of the library's non-test code in: {FILES[area]}
-Each refactoring is a separate small patch (each against the clean checkout, not stacked) of the kind a maintainer commits during routine maintenance, and must leave the observable behaviour of the crate EXACTLY unchanged for every input, every call sequence, every build profile (debug and release) and every feature combination (`unsafe`, `unchecked`, `opt-reduce-fnv-table`, `strict-parser`, `--no-default-features`, `--no-default-features --features alloc,easy-functions`): same results, same errors, same panics, same public API (no renamed/added/removed public items, no changed signatures; renaming PARAMETERS and private locals is fine).
-This round, use these kinds (each at least once across the eight, at sites not listed below):
+DEFAULT_KINDS = '''This round, use these kinds (each at least once across the eight, at sites not listed below):
  * a predicate / classifier rewritten in another form: `matches!(x, A | B)` <-> exhaustive `match` <-> `if let`; an `a && b && c` chain <-> early `return false` ladder <-> nested `if`; `!matches!(..)` <-> match with swapped results;
  * a loop rewritten: iterator adaptor (`all`, `any`, `position`, `fold`, `for_each`) <-> explicit `for` loop with early exit, `for x in arr.iter()` <-> `for x in &arr` <-> `while let Some(x) = it.next()`, index loop <-> `iter().enumerate()`;
  * debug assertions: ADD a `debug_assert!` (or the crate's `invariant!` where that macro is already used in the function) that is CERTAINLY TRUE at that point because an earlier `if`/`assert!`/early return of the same function established it, or because of plain arithmetic (a masked value is at most the mask, a `u8 as usize` is below 256, ...); REWORD an existing `debug_assert!`/`invariant!` condition equivalently (`a <= b` as `!(a > b)` or `b >= a`); MOVE an existing debug assertion a few lines without crossing anything that changes its operands; REMOVE a redundant duplicate debug assertion;
@@ -30,6 +22,18 @@ This round, use these kinds (each at least once across the eight, at sites not l
  * extracting a few lines INCLUDING their debug assertions into a private `#[inline]` helper, or inlining a tiny private helper (with its debug assertions) into its single caller;
  * integer conversions that cannot change the value: `x as usize` <-> `usize::from(x)` for u8/u16/u32, `u32::from(b)` <-> `b as u32`;
  * `Option`/`Result` combinators <-> `match` (`map_or`, `ok_or`, `and_then`, `?` <-> explicit match with the same `From` conversion).
+'''
+prev = []
+for n in sorted(glob.glob("/verif/benign*/*/notes.json")):
+    a = n.split("/")[-2]
+    for o in json.load(open(n)):
+        prev.append("- %s: %s (%s)" % (a, str(o.get("kind"))[:80], str(o.get("where"))[:90]))
+KINDS = open(KINDS_FILE).read() if KINDS_FILE else DEFAULT_KINDS
+print(f"""You are working in a scratch git worktree of the Rust library a4lg/ffuzzy (a pure-Rust ssdeep fuzzy hashing library; crate `ffuzzy`, lib name `ssdeep`) at {W}. Work ONLY inside {W}; never read or touch /repo, /verif or other /tmp directories. There is no network: always run cargo with `--offline` and the environment `CARGO_NET_OFFLINE=true CARGO_TARGET_DIR={W}/target`.
+
+YOUR TASK: produce EIGHT independent BEHAVIOUR-PRESERVING refactorings of the library's non-test code in: {FILES[area]}
+Each refactoring is a separate small patch (each against the clean checkout, not stacked) of the kind a maintainer commits during routine maintenance, and must leave the observable behaviour of the crate EXACTLY unchanged for every input, every call sequence, every build profile (debug and release) and every feature combination (`unsafe`, `unchecked`, `opt-reduce-fnv-table`, `strict-parser`, `--no-default-features`, `--no-default-features --features alloc,easy-functions`): same results, same errors, same panics, same public API (no renamed/added/removed public items, no changed signatures; renaming PARAMETERS and private locals is fine).
+{KINDS}
 An earlier round already produced the refactorings listed below; choose DIFFERENT functions / sites:
 {chr(10).join(prev)}
 Do NOT change algorithms, constants, error values, the order of side effects, or anything whose equivalence is not obvious by inspection; do not touch tests, Cargo files or build scripts; no new compiler warnings.
